@@ -29,3 +29,23 @@ Theorem C19_fail_fast_cancels :
   forall rs1 b rs2, cancelled (drive true (rs1 ++ RErr b :: rs2)) = true.
 Proof. exact fail_fast_cancels. Qed.
 Print Assumptions C19_fail_fast_cancels.
+
+(* ---- the driver itself (Driver.v): the logic of run_parallel / run_serial,
+   connect_and_run_test_file and the RUNNING_TESTS lock has no deadlock and no livelock.  [mu] is a
+   measure no step increases; in every state short of the end some choice other than Ctrl-C
+   strictly decreases it; so wherever a run has got to - whatever the scheduler did and whenever
+   Ctrl-C or a fail-fast cancellation struck - it can be completed within mu steps. *)
+From SLT Require Import Driver DriverInv DriverLive.
+
+Theorem C19_driver_progress :
+  forall cf st, (0 < c_jobs cf)%nat -> DInv cf st -> d_phase st <> DEnd ->
+    exists c, c <> CCtrlC /\ (mu cf (fst (dstep cf st c)) < mu cf st)%nat.
+Proof. exact driver_progress. Qed.
+Print Assumptions C19_driver_progress.
+
+Theorem C19_driver_never_doomed :
+  forall cf sched st tr, (0 < c_jobs cf)%nat -> drun cf (dst0 cf) sched = (st, tr) ->
+    exists more, (length more <= mu cf (dst0 cf))%nat /\ ~ In CCtrlC more /\
+                 d_phase (fst (drun cf st more)) = DEnd.
+Proof. exact driver_never_doomed. Qed.
+Print Assumptions C19_driver_never_doomed.
